@@ -5,7 +5,6 @@ import (
 	"flag"
 	"fmt"
 	"os"
-	"os/exec"
 	"path/filepath"
 	"runtime/pprof"
 	"strings"
@@ -239,6 +238,8 @@ func cmdRun(args []string) {
 	unwind := fs.Int("unwind", 64, "loop bound")
 	prefixS := fs.String("prefix", "", "comma separated pre-assigned vfChoice values")
 	thorough := fs.Bool("thorough", false, "thorough tier")
+	ptrChoice := fs.Bool("ptrchoice", false, "allow guarded pointer choices")
+	summ := fs.String("summarise", "", "comma separated functions to summarise over finite domains")
 	prof := fs.String("prof", "", "cpu profile")
 	hpkg := fs.String("hpkg", "", "harness package dir relative to /repo (uses /verif/harness/<dir>, hooks and generators like check does)")
 	fs.Parse(args)
@@ -278,7 +279,7 @@ func cmdRun(args []string) {
 				continue
 			}
 			for _, g := range h.Gen {
-				out, err := exec.Command(filepath.Join(verifRoot, "bin", g.Tool)).Output()
+				out, err := runGen(g)
 				if err == nil {
 					ov[filepath.Join(repoRoot, h.Pkg, "zz_"+g.File)] = out
 				}
@@ -317,6 +318,14 @@ func cmdRun(args []string) {
 			}
 		}
 		cfg.Thorough = *thorough
+		cfg.PtrChoice = *ptrChoice
+		cfg.LazyFeas = false
+		cfg.Summarise = map[string]bool{}
+		for _, f := range strings.Split(*summ, ",") {
+			if f != "" {
+				cfg.Summarise[f] = true
+			}
+		}
 		hr := runHarness(prog, fn, cfg, prefix, *solver, *logp)
 		hr.Entered = nil
 		b, _ := json.MarshalIndent(hr, "", " ")
